@@ -57,7 +57,7 @@ CHECKS = {
         "category": "exploration",
         "design_ref": "DESIGN.md sections 4.3 (F6, F7), 4.5",
         "technique": "deterministic simulation: seeded construction routes (decode, normalize, code trip, JSON/pickle/marshal reload, recompile, leaf-by-leaf clone = identity loss; confusable twin programs) feeding a pool whose every pair and triple is checked against the value contract and a strict to_code() fingerprint partition; complete confusable-constant table cross-checked against CPython's _PyCode_ConstantKey",
-        "text": "Seeded search over routes by which equal (or confusably different) CodeData/Constant values come to exist in one process - where object identity of constants, the hidden state the hash/eq contract depends on, differs - on real CPython 3.7-3.10 under seeded hash seeds; every pair/triple in the pool is checked for hashability, equivalence-relation laws, equal=>equal-hash and set/dict behaviour, == versus the strict fingerprint of to_code(), and immutability; create-use-drop histories (values dropped before the next is built, compared with long-lived clones) expose identity-keyed caches. Sampling of routes and programs; the finite confusables table is enumerated completely.",
+        "text": "Seeded search over routes by which equal (or confusably different) CodeData/Constant values come to exist in one process - where object identity of constants, the hidden state the hash/eq contract depends on, differs - on real CPython 3.7-3.10 under seeded hash seeds; every pair/triple in the pool is checked for hashability, equivalence-relation laws, equal=>equal-hash and set/dict behaviour, == versus the strict fingerprint of to_code(), and immutability; create-use-drop histories (values dropped before the next is built, compared with long-lived clones) expose identity-keyed caches; hand-edited and artefact-variant values must be unequal to their originals; a second stage reloads values pickled by the batch workers in fresh processes under another hash seed (restart with only durable state surviving). Sampling of routes and programs; the finite confusables table (incl. hash-colliding constants) is enumerated completely.",
         "note": "Trusted: strict fingerprints (sim/fp.py) as the reference partition, cross-checked on every constant pair against ctypes _PyCode_ConstantKey with NaNs interned (a disagreement is a harness error).",
     },
     "C11": {
@@ -65,7 +65,7 @@ CHECKS = {
         "category": "fault_enumeration",
         "design_ref": "DESIGN.md section 6",
         "technique": "fault injection on state at rest with a detect-or-preserve oracle: every single-bit flip of co_flags, every small delta and swap of the argument counts (exhaustive per base object), the sign bit, deltas on co_nlocals/co_stacksize/co_firstlineno, seeded multi-bit masks and combinations, applied to stored code objects of seeded programs on CPython 3.7-3.10; flag words alone enumerated (all 2^18 known subsets on 3.9/3.10 in thorough) cold and warm; interrupted-history pass (KeyboardInterrupt at every line of the flag/argument conversion code, then re-judge unaltered objects)",
-        "text": "Enumerates the header-fault space per base code object (31 single-bit flag flips, 15 count deltas, 3 swaps - complete - plus seeded masks/combos) over seeded families of base objects on four interpreters, and the flag-word space (complete over known-flag subsets on 3.9/3.10 in the thorough tier; every subset with <=3 flags set or clear plus seeded samples on 3.7/3.8 where the IntFlag cache makes conversions quadratic). Oracle is the property's own: from_code raises or to_code() reproduces every header field exactly. The fault space per object is finite and enumerated; the base-object space is sampled.",
+        "text": "Enumerates the header-fault space per base code object (31 single-bit flag flips, 15 count deltas, 3 swaps - complete - plus seeded masks/combos) over seeded families of base objects on four interpreters, and the flag-word space (complete over known-flag subsets on 3.9/3.10 in the thorough tier; every subset with <=3 flags set or clear plus seeded samples on 3.7/3.8 where the IntFlag cache makes conversions quadratic). Oracle is the property's own: from_code raises or to_code() reproduces every header field exactly, recursively through nested code; alterations also cover parameter names, header fields of one nested code object, the sign bit and co_nlocals/co_stacksize/co_firstlineno; every fifth batch runs python -O; an interrupted-history pass aborts an encode/decode at every line of the flag/argument conversion and re-judges; an unsupported-feature probe edits data to use positional-only parameters (must raise on 3.7). The fault space per object is finite and enumerated; the base-object space is sampled.",
         "note": "Trusted: CPython's code constructor (what it refuses to build cannot reach the library and is counted separately); header comparison by the harness. Interpreters run without -O.",
     },
     "C12": {
